@@ -1,6 +1,7 @@
 package main
 
 import (
+	"io/fs"
 	"runtime/debug"
 	"archive/zip"
 	"bytes"
@@ -742,5 +743,71 @@ func runC14(c *Ctx) {
 	}
 	c.c14CheckSheet(n)
 	c.c14CheckRow(n)
+	c.c14DirFlag()
 	c.c14Explore()
+}
+
+// rezipFlagged rewrites a package with the external attributes of the matching entries saying "directory" while
+// name and content stay those of an ordinary part (archive/zip inflates such an entry like any other)
+func rezipFlagged(data []byte, match func(name string) bool) ([]byte, int64) {
+	zr, err := zip.NewReader(bytes.NewReader(data), int64(len(data)))
+	if err != nil {
+		return nil, 0
+	}
+	var out bytes.Buffer
+	zw := zip.NewWriter(&out)
+	var total int64
+	for _, e := range zr.File {
+		rc, err := e.Open()
+		if err != nil {
+			return nil, 0
+		}
+		body, _ := io.ReadAll(rc)
+		rc.Close()
+		total += int64(len(body))
+		fh := &zip.FileHeader{Name: e.Name, Method: zip.Deflate}
+		if match(e.Name) {
+			fh.SetMode(fs.ModeDir | 0o755)
+		}
+		w, err := zw.CreateHeader(fh)
+		if err != nil {
+			return nil, 0
+		}
+		w.Write(body)
+	}
+	zw.Close()
+	return out.Bytes(), total
+}
+
+// a package whose parts carry the directory bit is held to the unzip limits like any other: with UnzipSizeLimit below
+// what the package inflates to it is refused
+func (c *Ctx) c14DirFlag() {
+	f := excelize.NewFile()
+	for r := 1; r <= 3000; r++ {
+		f.SetSheetRow("Sheet1", "A"+strconv.Itoa(r), &[]interface{}{strings.Repeat("x", 40) + strconv.Itoa(r), r, r * 2, "tail"})
+	}
+	buf, err := f.WriteToBuffer()
+	f.Close()
+	if err != nil {
+		return
+	}
+	for _, which := range []string{"xl/worksheets/sheet1.xml", "xl/sharedStrings.xml", "xl/styles.xml", "", "*"} {
+		data, total := rezipFlagged(buf.Bytes(), func(n string) bool { return which == "*" || n == which })
+		if data == nil {
+			continue
+		}
+		for _, lim := range []int64{total / 2, total - 1} {
+			for _, xl := range []int64{lim / 2, 1 << 40} {
+				desc := map[string]interface{}{"entries_flagged_as_directory": which, "UnzipSizeLimit": lim, "UnzipXMLSizeLimit": xl, "inflated_size": total}
+				c.guard("C14_no_panic", desc, func() {
+					g, err := excelize.OpenReader(bytes.NewReader(data), excelize.Options{UnzipSizeLimit: lim, UnzipXMLSizeLimit: xl})
+					c.Count("dir-flag", which != "", fmt.Sprint(desc))
+					if err == nil {
+						g.Close()
+						c.Fail("oracle", "C14_alloc_bound", desc, fmt.Sprintf("a package that inflates to %d bytes opened under UnzipSizeLimit=%d (entries flagged as directories: %q)", total, lim, which), "")
+					}
+				})
+			}
+		}
+	}
 }
